@@ -195,6 +195,52 @@ def deep_state(est, values=True):
     return out
 
 
+def plain_params(est):
+    """Every non-estimator constructor parameter (deep), by value and type."""
+    out = []
+    for k, v in sorted(walk_params(est).items()):
+        if hasattr(v, "get_params") or isinstance(v, (list, tuple, dict)) or callable(v):
+            continue
+        out.append((k, type(v).__name__, repr(v)))
+    return out
+
+
+def passed_exactly(entry):
+    """The constructor keeps what it is given: every integer-valued parameter handed over as a numpy integer (as it
+    comes out of an array or a parameter grid) is returned by get_params as that very object."""
+    est = entry["factory"]()
+    bad = []
+    shallow = est.get_params(deep=False)
+    for k, v in sorted(shallow.items()):
+        if isinstance(v, bool) or not isinstance(v, (int, np.integer)):
+            continue
+        given = np.int64(v)
+        try:
+            other = type(est)(**dict(shallow, **{k: given}))
+        except Exception:
+            continue        # a constructor that insists on built-in integers: validation, not part of C04
+        got = other.get_params(deep=False)[k]
+        if got is not given:
+            bad.append("%s=np.int64(%d) comes back as %s %r" % (k, v, type(got).__name__, got))
+    return bad
+
+
+def two_components(entry):
+    """One set_params call replacing TWO components by name installs both."""
+    from sktime.forecasting.naive import NaiveForecaster
+    est = entry["factory"]()
+    shallow = est.get_params(deep=False)
+    lname = next((n for n in ("forecasters", "steps") if n in shallow and isinstance(shallow[n], list)), None)
+    if lname is None or len(shallow[lname]) < 2 or lname == "steps":
+        return None
+    names = [t[0] for t in shallow[lname]]
+    a, b = NaiveForecaster(strategy="last", sp=7), NaiveForecaster(strategy="mean", sp=5)
+    est.set_params(**{names[0]: a, names[-1]: b})
+    deep = est.get_params(deep=True)
+    now = dict((t[0], t[1]) for t in est.get_params(deep=False)[lname])
+    return deep.get(names[0]) is a and deep.get(names[-1]) is b and now.get(names[0]) is a and now.get(names[-1]) is b
+
+
 def run_plan(entry, plan, seed, tid):
     warnings.filterwarnings("ignore")
     from sklearn.base import clone
@@ -246,10 +292,10 @@ def run_plan(entry, plan, seed, tid):
                 emit(op, "", not_fitted_outcome(apply_calls(entry, fresh, args)), est, False)
             elif op == "fit":
                 try:
-                    before = deep_state(est)
+                    before = (deep_state(est), plain_params(est))
                     r = est.fit(*args, **kw)
                     # constructor arguments (and the prototype objects among them) are left exactly as they were
-                    emit("fit", "", "" if deep_state(est) == before else "params_changed", est, r is est)
+                    emit("fit", "", "" if (deep_state(est), plain_params(est)) == before else "params_changed", est, r is est)
                 except Exception as e:
                     emit("fit", "", "other:" + type(e).__name__ + ":" + str(e)[:60], est, False)
                     break
@@ -338,6 +384,28 @@ def run(ctx):
                                   "fitted": False, "self": True}})
             trace.append({"tid": tid, "i": 2, "op": "set_unknown", "name": "",
                           "obs": {"rej": "unknown" if lc["old_name"] == "rejected" else "other", "params": {}, "fitted": False, "self": False}})
+        # numpy-integer arguments come back as passed; two components replaced in one call
+        tid += 1
+        ctx.evaluations += 1
+        try:
+            bad = passed_exactly(entry)
+        except Exception as e:
+            bad = ["crash: %s %s" % (type(e).__name__, str(e)[:100])]
+        meta[tid] = {"estimator": entry["name"], "plan": [["construct_with_numpy_integers", ""]], "detail": bad[:3]}
+        trace.append({"tid": tid, "i": 1, "op": "construct", "name": "",
+                      "obs": {"rej": "" if not bad else "other", "params": {}, "fitted": False, "self": True}})
+        if entry["kind"] == "forecaster":
+            try:
+                two = two_components(entry)
+            except Exception as e:
+                two = "crash %s" % type(e).__name__
+            if two is not None:
+                tid += 1
+                ctx.evaluations += 1
+                meta[tid] = {"estimator": entry["name"], "plan": [["replace_two_components_in_one_call", ""]]}
+                trace.append({"tid": tid, "i": 1, "op": "set_alt", "name": "c",
+                              "obs": {"rej": "" if two is True else "other", "params": {"c": "alt" if two is True else "other"},
+                                      "fitted": False, "self": True}})
         if ei % 15 == 0:
             ctx.sample({"scenario": meta[tid], "events": [(e["op"], e["name"], e["obs"]) for e in ev][:6]})
     # static constructor scan of every estimator class in the source tree
